@@ -94,11 +94,14 @@ def _first_minute_stored(o, s):
     None: no fill in the second minute"""
     stored = False
     seen = None
+    whole = [R.atom(x) for x in ("o1", "c1", "h1", "l1", "v1")]
     for e in o.events:
-        if e[0] == "add_candle" and e[2] == "1m" and isinstance(e[1], tuple) and len(e[1]) > 2:
-            ts, close = e[1][0], e[1][2]
-            if isinstance(ts, R) and ts.is_const() and ts.const_value() == T1 and isinstance(close, R) and close.same(R.atom("c1")):
-                stored = True
+        if e[0] == "add_candle" and e[2] == "1m" and isinstance(e[1], tuple) and len(e[1]) > 5:
+            ts = e[1][0]
+            if isinstance(ts, R) and ts.is_const() and ts.const_value() == T1:
+                # the minute as it is left in the store (the last write wins): the WHOLE input candle - not the partial candle of a
+                # fill, not what was left of the candle after the fill
+                stored = all(isinstance(x, R) and x.same(y) for x, y in zip(e[1][1:6], whole))
         elif e[0] == "add_multiple_1m":
             stored = True
         elif e[0] == "fill_at" and isinstance(e[2], R) and e[2].is_const() and e[2].const_value() == T1 + 2 * MIN:
@@ -219,14 +222,15 @@ def _work_mkt(args):
                 f = tuple((o.interp.numeric(e[1], s), o.interp.numeric(e[2], s) if isinstance(e[2], R) else None) for e in o.events if e[0] == "fill_at")
                 act = W.enum_value(repo, "order_statuses", "ACTIVE")
                 pend = tuple(x.name for x in o.interp.world["orders_state"].attrs["to_execute"] if x.attrs.get("status") == act)   # (a queued order that already filled is a no-op)
-                runs.append((o.kind, f, pend))
+                # ... and what a hook in the second minute (the market order's own fill, a second-level reaction) finds of the first
+                # minute in the 1m store: the whole input candle, in both simulators
+                runs.append((o.kind, f, pend, _first_minute_stored(o, s)))
             res[mode] = sorted(set(runs), key=repr)
         out.append((rank, res, err))
     return out
 
 
-def check_hook_market_orders(repo, rep, tier):
-    rid = "C12-R4d"
+def check_hook_market_orders(repo, rep, tier, rid="C12-R4d"):
     rep.rule(rid, "a MARKET order submitted by the hook of a fill inside a chunk (e.g. liquidate(), an exit within 0.015 % of the price) is "
                   "executed at the end of THAT minute, as in the normal simulator, not after the later candles of the chunk: both matchers "
                   "are executed abstractly on a two-minute span with one resting order and a hook-submitted market order at the price m, for "
